@@ -535,7 +535,12 @@ impl<'tcx> Interp<'tcx> {
             let mut ok = true;
             for a in &args {
                 match a {
-                    Val::Int(i) => key.push((i.lo, i.hi, i.taint)),
+                    Val::Int(i) => {
+                        if i.lo != i.hi && i.lin.is_some() {
+                            ok = false; // relational argument (named atom): results depend on more than the interval
+                        }
+                        key.push((i.lo, i.hi, i.taint))
+                    }
                     _ => ok = false,
                 }
             }
@@ -598,6 +603,25 @@ impl<'tcx> Interp<'tcx> {
                 parts.push((k, s, ret));
             }
         }
+        let mut probe_cong = String::new();
+        if probe_this && !self.moduli.is_empty() {
+            for (_, s, v) in parts.iter() {
+                if let Val::Int(i) = v {
+                    if let Some(l) = &i.lin {
+                        let at = self.atoms(s);
+                        for q in self.moduli.iter() {
+                            if let Some(e) = at.expand_mod(l, *q) {
+                                probe_cong.push_str(&format!("{:?};", e));
+                            } else {
+                                probe_cong.push_str("none;");
+                            }
+                        }
+                    } else {
+                        probe_cong.push_str("nolin;");
+                    }
+                }
+            }
+        }
         if entering_region {
             let start = self.region_start.pop().unwrap();
             self.next_atom = start;
@@ -640,6 +664,8 @@ impl<'tcx> Interp<'tcx> {
             }
             d.insert("reject_witness".to_string(), w.map(|v| super::jobs::val_summary(&v, 0).to_string()).unwrap_or_else(|| "null".into()));
             d.insert("path".to_string(), self.call_path());
+            d.insert("ret_cong".to_string(), probe_cong.clone());
+            d.insert("first_atom".to_string(), atoms_before.to_string());
             self.probes.push(Probe { what: "ret".into(), inst: bi.name.clone(), ctx: String::new(), data: d });
         }
         if let Some(k) = pkey {
